@@ -75,6 +75,9 @@ def r1(ctx):
             def classify(inst, E, st):
                 if inst.op == "call" and inst.callee == "lrtr_ip_addr_equal":
                     return [(["cmp"], {inst.ref: flow.av_in(1 if p_eq else 0)})]
+                if inst.op == "call" and inst.callee == "prefix_is_same":
+                    # the comparison helper is decided by its own cells below
+                    return [(["cmp"], {inst.ref: flow.av_in(1 if (lrel == "eq" and p_eq) else 0)})]
                 if inst.op == "store" and vf.expr(fn, inst["ptr"]) == FOUND:
                     return ["=found:%s" % flow.av_single(E.val(inst["val"]))]
                 if inst.op == "call" and inst.callee == "is_left_child":
@@ -366,6 +369,8 @@ def r2_shift(ctx):
     # element-wise stores (field by field) would show up as stores through ary[i]; the struct copy is a memcpy at -O0
     if not moves:
         raise AnalysisBroken("pfx_table_del_elem: the move that closes the gap was not found")
+    from specs import C18 as _C18
+    _C18.del_elem_shape(pdb)
     good = True
     detail = []
     for c, di, si, n in moves:
@@ -821,6 +826,13 @@ def r5(ctx):
     got = {}
     body = loops[0]["body"] if loops else set()
     for i in fn.all_insts():
+        if i.op == "store" and i.block.id not in body and fn.dom(i, c) and vf.root_of(vf.expr(fn, i["ptr"])) == rec \
+                and vf.store_field(i) in ("pfx_record.prefix", "pfx_record.min_len"):
+            # the two node-level fields are the same for every element of the node: set once before the element loop
+            got.setdefault(vf.store_field(i), vf.expr(fn, i["val"]))
+        if i.op == "call" and (i.callee or "").startswith("llvm.memcpy") and i.block.id not in body and fn.dom(i, c) \
+                and vf.root_of(vf.expr(fn, i.args[0])) == rec and vf.last_field(vf.expr(fn, i.args[0])) == "pfx_record.prefix":
+            got.setdefault("pfx_record.prefix", ("load", vf.expr(fn, i.args[1])))
         if i.block.id in body and fn.dom(i, c):
             if i.op == "store" and vf.root_of(vf.expr(fn, i["ptr"])) == rec:
                 got[vf.store_field(i)] = vf.expr(fn, i["val"])
@@ -840,10 +852,13 @@ def r5(ctx):
     ctx.check(not missing and idx_ok, "C02.R5", "record-fields", c.loc(), "fields missing or from the wrong place: %s; element fields indexed by the loop index: %s" % ([m.split(".")[1] for m in missing], idx_ok),
               key="C02.R5:fields")
     recs = fn.calls("pfx_table_for_each_rec")
+    # the function may check its own argument on entry instead of every caller checking the child
+    derefs = [i for i in fn.all_insts() if i.op == "load" and vf.expr(fn, i["ptr"])[0] == "fld" and vf.expr(fn, i["ptr"])[1] == ("arg", 0)]
+    entry_checks = bool(derefs) and all(es.Guards(fn, i).nonzero(("arg", 0)) for i in derefs)
     kids = []
     for r in recs:
         e = vf.expr(fn, r.args[0])
-        guarded = es.Guards(fn, r).nonzero(e)
+        guarded = es.Guards(fn, r).nonzero(e) or entry_checks
         kids.append((vf.last_field(e[1]) if e[0] == "load" else None, guarded, vf.expr(fn, r.args[1]) == ("arg", 1) and vf.expr(fn, r.args[2]) == ("arg", 2)))
     # a child may also be visited by going round a loop with the node variable moved to that child (tail call written as a loop)
     looped = []
